@@ -675,8 +675,8 @@ func genG1(g *Gen) {
 	} else {
 		// one case next to the Straus/Pippenger threshold, one next to a window threshold, then uniform picks
 		k := g.N / 150
-		if k < 3 {
-			k = 3
+		if k < 4 {
+			k = 4
 		}
 		for len(queue) < k {
 			c := large[g.Intn(len(large))]
@@ -685,8 +685,10 @@ func genG1(g *Gen) {
 				c.op, c.n = "xmsmvt", []int{191, 192, 200}[g.Intn(3)]
 			case 1:
 				c.op, c.n = "msmvt", []int{189, 190, 191}[g.Intn(3)]
-			case 2:
-				c.n = []int{499, 500, 501, 799, 800, 801}[g.Intn(6)]
+			case 2: // always: the widest window (w = 8 from 800 terms on) of the variable-time bucket method, with its extra top digit
+				c.op, c.n = "msmvt", []int{800, 801}[g.Intn(2)]
+			case 3:
+				c.n = []int{499, 500, 501, 799}[g.Intn(4)]
 			}
 			queue = append(queue, c)
 		}
